@@ -1,4 +1,5 @@
 import HclModel.Expr.Eval
+import HclModel.Expr.Rel
 import HclModel.Sexp
 /-!
 Wire format of values, types, expressions and scopes (s-expressions; strings in hex), and the fixed
@@ -180,15 +181,38 @@ def stdFuncs : Funcs
   | "sumlist" => some fnSumList
   | _ => none
 
+/-- the configuration that corresponds to the Go code -/
+def goCx : Cx := { funcs := stdFuncs }
+
 /-- `EVAL <expr> <env>` → `<value> ok|err|unsupported` -/
 def evalLine (exprS envS : Sexp) : String :=
   match exprOfSexp exprS, envOfSexp envS with
   | some e, some ρ =>
-    let (v, ds) := eval stdFuncs ρ e
+    let (v, ds) := eval goCx ρ e
     if ds.any Diag.isUnsupported then "- unsupported " ++ ((ds.filter Diag.isUnsupported).map (·.site)).toString
     else if hasErrors ds then valDump v ++ " err " ++ (ds.map (·.site)).toString
     else valDump v ++ " ok"
   | none, _ => "- unsupported-input expr"
   | _, none => "- unsupported-input env"
+
+/-- `NI <expr> <env1> <env2>`: executable instance of the noninterference statement (model self-test) -/
+def niLine (exprS env1S env2S : Sexp) : String :=
+  match exprOfSexp exprS, envOfSexp env1S, envOfSexp env2S with
+  | some e, some ρ, some σ =>
+    let (v₁, d₁) := eval (strictCx stdFuncs) ρ e
+    let (v₂, d₂) := eval (strictCx stdFuncs) σ e
+    if !d₁.isEmpty || !d₂.isEmpty then "n/a"
+    else if relV v₁ v₂ then (if Val.eqErased v₁ v₂ then "ok-equal" else "ok-marked") else "VIOLATION " ++ valDump v₁ ++ " " ++ valDump v₂
+  | _, _, _ => "unsupported-input"
+
+/-- `CONC <expr> <concrete env> <abstract env>`: executable instance of the abstraction-soundness statement -/
+def concLine (exprS envCS envAS : Sexp) : String :=
+  match exprOfSexp exprS, envOfSexp envCS, envOfSexp envAS with
+  | some e, some ρc, some ρa =>
+    let (vc, dc) := eval (strictCx stdFuncs) ρc e
+    let (va, da) := eval (strictCx stdFuncs) ρa e
+    if !dc.isEmpty || !da.isEmpty then "n/a"
+    else if conc vc va then (if Val.whollyKnown va then "ok-known" else "ok-abstract") else "VIOLATION " ++ valDump vc ++ " " ++ valDump va
+  | _, _, _ => "unsupported-input"
 
 end HclModel
